@@ -112,6 +112,15 @@ func loadKnown() []KnownFinding {
 // Finish prints the summary, writes evidence and replay files and returns the exit status.
 func (c *Check) Finish() int {
 	known := loadKnown()
+	if c.P != nil && len(c.P.Renamed) > 0 {
+		c.Extra["renamed_declarations"] = c.P.Renamed
+		for _, r := range c.P.Renamed {
+			fmt.Println("RENAMED " + r)
+		}
+	}
+	if c.P != nil && len(c.P.MissingDecls) > 0 {
+		c.Extra["baseline_declarations_not_found"] = c.P.MissingDecls
+	}
 	counts := map[string]int{}
 	for _, o := range c.Obs {
 		if o.Status != "advisory" {
